@@ -166,6 +166,9 @@ def run_impl(case, h):
     # not depend on the call history (C02), and a defect that only shows on later calls is exercised here too
     cuts = [int(len(inc) * q) for q in case.get('chunks', [0.4, 0.75])]
     prev = 0
+    if case.get('stepwise'):
+        # per-epoch use: look ahead with predict(), then integrate the same increment (every epoch)
+        cuts = list(range(1, len(inc)))
     for c in cuts + [len(inc)]:
         if prev < len(inc):
             integ.predict(inc.iloc[prev])      # look-ahead of the next increment: must change nothing
@@ -314,6 +317,8 @@ def numeric_support(r, n_traj, n_fd, seed_off=0, n_long=0, n_gentle=0):
     for i in range(n_traj):
         kind = 'rate' if i % 2 == 0 else 'increment'
         case = make_case(rng, kind, long=('gentle' if i < n_gentle else (i < n_gentle + n_long)))
+        if i >= n_gentle + n_long and i % 3 == 2:
+            case.update(stepwise=True, T=2.0, h=max(case['h'], 0.01))
         bad, info = halving_case(case)
         e = info['err']
         ratios.append([max(e[k][g] / e[k + 1][g] for k in range(NLEV - 1)) if e[-1][g] > FLOOR0[g] * case.get('floor_scale', 1.0) else float('nan')
